@@ -322,6 +322,8 @@ where
         // Detach pos to ensure it's AD-enabled for the gradient computation.
         let pos = self.positions.clone().detach().require_grad();
         let logp_current = self.target.unnorm_logp_batch(pos.clone());
+        #[cfg(mini_mcmc_verif)]
+        let (momentum_0_verif, logp_current_verif) = (momentum_0.clone(), logp_current.clone().detach());
 
         // Compute gradient of log probability with respect to pos.
         // First gradient step in leapfrog needs it.
@@ -345,6 +347,8 @@ where
         let (proposed_positions, proposed_momenta, logp_proposed) =
             self.leapfrog(self.positions.clone(), momentum_0);
 
+        #[cfg(mini_mcmc_verif)]
+        let (proposed_momenta_verif, logp_proposed_verif) = (proposed_momenta.clone(), logp_proposed.clone());
         // Compute proposed kinetic energy.
         let ke_proposed = proposed_momenta
             .powf_scalar(2.0)
@@ -355,6 +359,8 @@ where
         let h_proposed = -logp_proposed + ke_proposed;
 
         // 3) Accept/Reject each proposal.
+        #[cfg(mini_mcmc_verif)]
+        let (h_current_verif, h_proposed_verif) = (h_current.clone(), h_proposed.clone());
         let accept_logp = h_current.sub(h_proposed);
 
         // Draw a uniform random number for each chain.
@@ -367,18 +373,62 @@ where
             &B::Device::default(),
         );
 
+        #[cfg(mini_mcmc_verif)]
+        let uniform_verif = uniform.clone();
         // Accept the proposal if accept_logp >= ln(u).
         let ln_u = uniform.log(); // shape [n_chains]
+        #[cfg(mini_mcmc_verif)]
+        let (accept_logp_verif, ln_u_verif) = (accept_logp.clone(), ln_u.clone());
         let accept_mask = accept_logp.greater_equal(ln_u); // Boolean mask of shape [n_chains]
         let mut accept_mask_big: Tensor<B, 2, Bool> = accept_mask.clone().unsqueeze_dim(1);
         accept_mask_big = accept_mask_big.expand([n_chains, dim]);
 
+        #[cfg(mini_mcmc_verif)]
+        let verif_rec = if crate::verif::enabled() {
+            use crate::verif::tensor_f64 as tf;
+            Some((
+                tf(&self.positions),
+                tf(&momentum_0_verif),
+                tf(&logp_current_verif),
+                tf(&h_current_verif),
+                tf(&proposed_positions),
+                tf(&proposed_momenta_verif),
+                tf(&logp_proposed_verif),
+                tf(&h_proposed_verif),
+                tf(&accept_logp_verif),
+                tf(&uniform_verif),
+                tf(&ln_u_verif),
+                accept_mask.to_data().to_vec::<bool>().unwrap(),
+            ))
+        } else {
+            None
+        };
         // Update positions: for accepted chains, replace current positions with proposed positions.
         self.positions.inplace(|x| {
             x.clone()
                 .mask_where(accept_mask_big, proposed_positions)
                 .detach()
         });
+        #[cfg(mini_mcmc_verif)]
+        if let Some(r) = verif_rec {
+            crate::verif::push(crate::verif::Event::HmcStep {
+                n_chains,
+                dim,
+                pos_before: r.0,
+                momenta: r.1,
+                logp_current: r.2,
+                h_current: r.3,
+                pos_proposed: r.4,
+                mom_proposed: r.5,
+                logp_proposed: r.6,
+                h_proposed: r.7,
+                accept_logp: r.8,
+                uniform: r.9,
+                ln_u: r.10,
+                mask: r.11,
+                pos_after: crate::verif::tensor_f64(&self.positions),
+            });
+        }
     }
 
     /// Perform the leapfrog integrator steps in a batched manner.
@@ -399,6 +449,22 @@ where
     /// - The new positions (tensor of shape `[n_chains, D]`),
     /// - The new momenta (tensor of shape `[n_chains, D]`),
     /// - The log probability evaluated at the new positions (tensor of shape `[n_chains]`).
+    /// Verification hook: `n_leapfrog` leapfrog steps from (pos, mom), recomputing the initial
+    /// half-step gradient at `pos` exactly as `step` does before it calls `leapfrog`.
+    #[cfg(mini_mcmc_verif)]
+    pub fn leapfrog_verif(
+        &mut self,
+        pos: Tensor<B, 2>,
+        mom: Tensor<B, 2>,
+    ) -> (Tensor<B, 2>, Tensor<B, 2>, Tensor<B, 1>) {
+        let p = pos.clone().detach().require_grad();
+        let logp = self.target.unnorm_logp_batch(p.clone());
+        let grads = p.grad(&logp.backward()).unwrap();
+        self.last_grad_summands =
+            Tensor::<B, 2>::from_inner(grads.mul_scalar(self.step_size * T::from(0.5).unwrap()));
+        self.leapfrog(pos, mom)
+    }
+
     fn leapfrog(
         &mut self,
         mut pos: Tensor<B, 2>,
